@@ -12,4 +12,7 @@ CONSTANTS
   Loop = FALSE
   AddGate = TRUE
   MaxHeal = 3
+  Est = FALSE
+  Rcv = FALSE
+  MaxSilent = 0
 CHECK_DEADLOCK FALSE
